@@ -112,6 +112,10 @@ StepMemberRead(m, e) ==
     [m EXCEPT !.S = Closure({ Apply(s, [a |-> "memberRead", src |-> e.src, n |-> e.n]) : s \in m.S }),
               !.bad = @ \cup (IF e.ret # "ok" THEN {"ReadLostOrDup"} ELSE {})]     \* the transport does not read this member
 
+StepMemberFail(m, e) ==
+    [m EXCEPT !.S = Closure({ Apply(s, [a |-> "memberFail", src |-> e.src]) : s \in m.S }),
+              !.bad = @ \cup (IF e.ret # "ok" THEN {"ReadLostOrDup"} ELSE {})]     \* nobody was reading this member
+
 \* ---- Read
 ForceRead(s, k) == [s EXCEPT !.inbox = [x \in Members |-> SelectSeq(s.inbox[x], LAMBDA y : y # k)],
                              !.q = SelectSeq(s.q, LAMBDA y : y # k),
@@ -159,6 +163,7 @@ MonStep(m, e) ==
                      [] e.a \in {"asUnreliable", "negotiationParams"} -> StepProbe(m, e)
                      [] e.a = "counters" -> StepCounters(m, e)
                      [] e.a = "memberRead" -> StepMemberRead(m, e)
+                     [] e.a = "memberFail" -> StepMemberFail(m, e)
                      [] e.a = "read" -> StepRead(m, e)
                      [] e.a = "close" -> StepClose(m, e)
                      [] e.a = "final" -> StepFinal(m, e)
